@@ -149,12 +149,12 @@ func (k Keeper) AdjustPool(
 	k.SetRewardRules(ctx, pool.Id, pool.Rules)
 
 	// expiredHeight = [(srcEndHeight-beginPoint)*srcRewardPerBlock +appendReward]/RewardPerBlock + beginPoint
-	rewardsPerBlock := types.RewardRules(pool.Rules).RewardsPerBlock()
-	availableHeight := availableReward[0].Amount.Quo(rewardsPerBlock.AmountOf(availableReward[0].Denom)).Int64()
-	for _, c := range availableReward[1:] {
-		rpb := rewardsPerBlock.AmountOf(c.Denom)
-		inteval := c.Amount.Quo(rpb).Int64()
-		if availableHeight > inteval {
+	// The minimum is taken over every reward rule: a rule with nothing available
+	// (sdk.Coins drops zero coins) must not be skipped, it limits the pool to zero more blocks.
+	availableHeight := int64(-1)
+	for _, r := range pool.Rules {
+		inteval := availableReward.AmountOf(r.Reward).Quo(r.RewardPerBlock).Int64()
+		if availableHeight < 0 || availableHeight > inteval {
 			availableHeight = inteval
 		}
 	}
